@@ -52,6 +52,12 @@ func runC01(r *an.Run) {
 	relabel(r, "R3-consistent-binding", "R11-repeated-metavariable-compares-literally")
 	relabel(r, "R7-captured-matcher-ignores-nothing-more", "R11-repeated-metavariable-compares-literally")
 	candidateHandedDown(r, "R12-the-candidate-is-what-is-matched")
+	// "every instance is rewritten": FileReplacer.Replace rewrites the shared tree site by site and stops at
+	// the first site it cannot build, so a file on which a change failed has some instances rewritten and
+	// others not — it is given up, never carried on with or printed
+	c06MatchedFlagAs(r, "R13-a-half-applied-change-is-never-emitted")
+	c09APIFailure(r)
+	relabel(r, "R4-failure-leaves-file-untouched", "R13-a-half-applied-change-is-never-emitted")
 }
 
 const (
@@ -581,10 +587,19 @@ func c01Guards(r *an.Run) {
 		onlyVia(r, f, short(f)+"|type-eq", "scalar type equality m.Type == got.Type()", typeGuard(f))
 		idx, _ := an.VerdictIndex(f.Signature)
 		for _, ret := range an.PossiblyTrueReturns(f, idx) {
-			cmp, ok := ret.Results[idx].(*ssa.BinOp)
-			good := ok && cmp.Op == token.EQL &&
-				(an.Path(cmp.X) == "m.Value" && callOn(cmp.Y, rvInterface, func(x ssa.Value) bool { return isParam(x, "got") }) ||
-					an.Path(cmp.Y) == "m.Value" && callOn(cmp.X, rvInterface, func(x ssa.Value) bool { return isParam(x, "got") }))
+			good := true
+			for _, leaf := range phiLeaves(ret.Results[idx]) {
+				// `m.Type == got.Type() && m.Value == got.Interface()`: the other way into the verdict is false
+				if b, isc := an.ConstBool(leaf); isc && !b {
+					continue
+				}
+				cmp, ok := leaf.(*ssa.BinOp)
+				if !(ok && cmp.Op == token.EQL &&
+					(an.Path(cmp.X) == "m.Value" && callOn(cmp.Y, rvInterface, func(x ssa.Value) bool { return isParam(x, "got") }) ||
+						an.Path(cmp.Y) == "m.Value" && callOn(cmp.X, rvInterface, func(x ssa.Value) bool { return isParam(x, "got") }))) {
+					good = false
+				}
+			}
 			r.Check(good, short(f)+"|value-eq", ret.Pos(), "the verdict of ValueMatcher.Match is m.Value == got.Interface()")
 		}
 		r.Count("guards", 1)
@@ -783,6 +798,23 @@ func dispatchTable(r *an.Run, f *ssa.Function, gt map[string]string) (cases map[
 	cases = map[string]string{}
 	subject := isCallOnParam(rvType, "v")
 	cs := an.EqCases(f, subject)
+	if len(cs) == 0 {
+		// the dispatch as data: a package-level map from reflect.Type to a compile function
+		if td := tableDispatchOf(r, f, gt); td != nil {
+			for _, a := range td.arms {
+				if _, dup := cases[a.typ]; dup {
+					continue
+				}
+				cases[a.typ] = describeArmFunc(a.fn)
+			}
+			if td.deflt != nil {
+				if ret := an.ReturnOf(td.deflt); ret != nil {
+					deflt = an.Describe(ret.Results[0])
+				}
+			}
+			return
+		}
+	}
 	var lastElse *ssa.BasicBlock
 	for _, c := range cs {
 		g := an.GlobalLoaded(c.Key)
@@ -892,7 +924,7 @@ func c01IgnoreSet(r *an.Run) {
 						for root.Parent() != nil {
 							root = root.Parent()
 						}
-						r.Check(root == f, "successMatcher-use|"+short(h), in.Pos(), "the always-true matcher is handed out only by the dispatch of matcherCompiler.compile (used in %s)", short(h))
+						r.Check(root == f || dispatchArmFuncs(r, f, gt)[root], "successMatcher-use|"+short(h), in.Pos(), "the always-true matcher is handed out only by the dispatch of matcherCompiler.compile (used in %s)", short(h))
 					}
 				}
 			}
@@ -1102,6 +1134,31 @@ func kindCases(r *an.Run, f *ssa.Function) map[string]string {
 		names[reflectKind(r, k)] = k
 	}
 	out := map[string]string{}
+	if len(an.EqCases(f, isCallOnParam(rvKind, "v"))) == 0 {
+		// the switch may live in a private helper that f hands its v to and whose result f returns (wrapped or not)
+		for _, c := range an.Calls(f) {
+			g := an.StaticCallee(c)
+			call, isCall := c.(*ssa.Call)
+			if !isCall || g == nil || g == f || !an.InModule(g) || g.Blocks == nil || len(an.EqCases(g, isCallOnParam(rvKind, "v"))) == 0 {
+				continue
+			}
+			passesV := false
+			for i, a := range c.Common().Args {
+				if isParam(a, "v") && i < len(g.Params) && isParam(g.Params[i], "v") {
+					passesV = true
+				}
+			}
+			returned := false
+			for _, ret := range an.Returns(f) {
+				if len(ret.Results) > 0 && derivesFrom(ret.Results[0], call) {
+					returned = true
+				}
+			}
+			if passesV && returned {
+				return kindCases(r, g)
+			}
+		}
+	}
 	for _, c := range an.EqCases(f, isCallOnParam(rvKind, "v")) {
 		k, ok := an.ConstInt(c.Key)
 		if !ok {
@@ -1639,6 +1696,8 @@ func c01SplitPatch(r *an.Run) {
 	r.Check(nStrip >= 1 && armsStrip == 2, short(f)+"|strip", f.Pos(), "exactly the marker byte is stripped in the '-' and in the '+' arm (%d [1:] cut(s), %d arm(s) perform one)", nStrip, armsStrip)
 	r.Count("split cases", nMinus+nPlus)
 	r.Min("split cases", 2)
+	// and the lines that are split are the patch's own bytes
+	splitterKeepsTheLine(r)
 }
 
 func writerName(v ssa.Value, both *ssa.Call) string {
@@ -1742,4 +1801,238 @@ func containerHelper(f *ssa.Function) (*ssa.Function, int, error) {
 		return h, ex.Index, nil
 	}
 	return nil, 0, fmt.Errorf("no helper decision")
+}
+
+// typeArm is one special-cased type of a compile function: the code that runs
+// for values of exactly that type. In the switch form it is the arm's first
+// block in the compile function itself; in the table form it is the function
+// registered for the type.
+type typeArm struct {
+	typ   string
+	block *ssa.BasicBlock // switch form
+	iff   *ssa.BasicBlock // switch form: the block that tests for the type
+	fn    *ssa.Function   // table form
+}
+
+// instrs lists the instructions that run for the type before anything else is decided.
+func (a typeArm) instrs() []ssa.Instruction {
+	if a.fn != nil {
+		var out []ssa.Instruction
+		for _, b := range a.fn.Blocks {
+			out = append(out, b.Instrs...)
+		}
+		return out
+	}
+	return an.FollowJumps(a.block).Instrs
+}
+
+type tableDispatch struct {
+	table *ssa.Global
+	arms  []typeArm
+	deflt *ssa.BasicBlock
+}
+
+var tableDispatchCache = map[*ssa.Function]*tableDispatch{}
+
+// tableDispatchOf recognises
+//
+//	if fn, ok := table[v.Type()]; ok { return fn(c, v) }
+//	return <default>
+//
+// where table is a package-level map[reflect.Type]func filled only by the
+// package's init functions, one entry per goast.*Type global. A table that is
+// written anywhere else, or an entry whose key or value cannot be resolved, is
+// reported as undecided.
+func tableDispatchOf(r *an.Run, f *ssa.Function, gt map[string]string) *tableDispatch {
+	if td, ok := tableDispatchCache[f]; ok {
+		return td
+	}
+	tableDispatchCache[f] = nil
+	subject := isCallOnParam(rvType, "v")
+	var lk *ssa.Lookup
+	for _, b := range f.Blocks {
+		for _, in := range b.Instrs {
+			if x, ok := in.(*ssa.Lookup); ok && x.CommaOk && subject(x.Index) && an.GlobalLoaded(x.X) != nil {
+				lk = x
+			}
+		}
+	}
+	if lk == nil {
+		return nil
+	}
+	g := an.GlobalLoaded(lk.X)
+	td := &tableDispatch{table: g}
+	var fnv, okv ssa.Value
+	for _, u := range *lk.Referrers() {
+		if ex, ok := u.(*ssa.Extract); ok {
+			if ex.Index == 0 {
+				fnv = ex
+			} else {
+				okv = ex
+			}
+		}
+	}
+	if fnv == nil || okv == nil {
+		return nil
+	}
+	brs := an.BranchesOn(f, okv)
+	if len(brs) != 1 {
+		r.Undecided(short(f)+"|table-dispatch", lk.Pos(), "the result of the dispatch-table lookup in %s is not tested exactly once", short(f))
+		return nil
+	}
+	hit, miss := brs[0].If.Block().Succs[0], brs[0].If.Block().Succs[1]
+	if !brs[0].Pos {
+		hit, miss = miss, hit
+	}
+	// on a hit the looked-up function is called with the compiler and the value, and its result returned
+	ret := an.ReturnOf(hit)
+	okHit := false
+	if ret != nil && len(ret.Results) == 1 {
+		if c, ok := ret.Results[0].(*ssa.Call); ok && c.Call.Value == fnv && !c.Call.IsInvoke() {
+			passesV := false
+			for _, a := range c.Call.Args {
+				if isParam(a, "v") {
+					passesV = true
+				}
+			}
+			okHit = passesV
+		}
+	}
+	if !okHit {
+		r.Undecided(short(f)+"|table-dispatch", lk.Pos(), "on a hit of the dispatch table %s does not simply return what the registered function makes of v", short(f))
+		return nil
+	}
+	td.deflt = miss
+	// the contents: map updates in the package's init functions
+	var made ssa.Value
+	pkgFns := r.P.ModuleFuncs()
+	if f.Pkg != nil {
+		if init := f.Pkg.Func("init"); init != nil {
+			dup := false
+			for _, h := range pkgFns {
+				if h == init {
+					dup = true
+				}
+			}
+			if !dup {
+				pkgFns = append(append([]*ssa.Function{}, pkgFns...), init) // the synthetic package initialiser
+			}
+		}
+	}
+	for _, h := range pkgFns {
+		if h.Pkg != f.Pkg {
+			continue
+		}
+		isInit := h.Name() == "init" || strings.HasPrefix(h.Name(), "init#")
+		for _, b := range h.Blocks {
+			for _, in := range b.Instrs {
+				switch x := in.(type) {
+				case *ssa.Store:
+					if x.Addr == ssa.Value(g) {
+						if !isInit {
+							r.Undecided(short(f)+"|table-dispatch|written", x.Pos(), "the dispatch table %s is replaced in %s, outside package initialisation", g.Name(), short(h))
+							return nil
+						}
+						made = x.Val
+					}
+				}
+			}
+		}
+	}
+	for _, h := range pkgFns {
+		if h.Pkg != f.Pkg {
+			continue
+		}
+		isInit := h.Name() == "init" || strings.HasPrefix(h.Name(), "init#")
+		for _, b := range h.Blocks {
+			for _, in := range b.Instrs {
+				mu, ok := in.(*ssa.MapUpdate)
+				if !ok {
+					continue
+				}
+				if mu.Map != made && an.GlobalLoaded(mu.Map) != g {
+					continue
+				}
+				if !isInit {
+					r.Undecided(short(f)+"|table-dispatch|written", mu.Pos(), "the dispatch table %s is updated in %s, outside package initialisation", g.Name(), short(h))
+					return nil
+				}
+				kg := an.GlobalLoaded(mu.Key)
+				var af *ssa.Function
+				val := mu.Value
+				for {
+					if ct, isCT := val.(*ssa.ChangeType); isCT {
+						val = ct.X
+						continue
+					}
+					break
+				}
+				switch v := val.(type) {
+				case *ssa.Function:
+					af = v
+				case *ssa.MakeClosure:
+					if len(v.Bindings) == 0 {
+						af, _ = v.Fn.(*ssa.Function)
+					}
+				}
+				if kg == nil || af == nil {
+					r.Undecided(short(f)+"|table-dispatch|entry", mu.Pos(), "an entry of the dispatch table %s is not a goast.*Type global mapped to a function", g.Name())
+					return nil
+				}
+				typ := gt[kg.Name()]
+				if typ == "" {
+					typ = "?" + kg.Name()
+				}
+				td.arms = append(td.arms, typeArm{typ: typ, fn: af})
+			}
+		}
+	}
+	if len(td.arms) == 0 {
+		return nil
+	}
+	tableDispatchCache[f] = td
+	r.Saw("dispatch table " + g.Name() + " of " + short(f))
+	return td
+}
+
+// describeArmFunc says what a registered compile function returns, in the
+// vocabulary of an.Describe (a method-expression thunk is looked through).
+func describeArmFunc(g *ssa.Function) string {
+	rets := an.Returns(g)
+	if len(rets) != 1 || len(rets[0].Results) != 1 {
+		return "block"
+	}
+	return an.Describe(rets[0].Results[0])
+}
+
+// typeArmsOf lists the special-cased types of a compile function in either form.
+func typeArmsOf(r *an.Run, f *ssa.Function, gt map[string]string) []typeArm {
+	var out []typeArm
+	for _, c := range an.EqCases(f, isCallOnParam(rvType, "v")) {
+		g := an.GlobalLoaded(c.Key)
+		if g == nil {
+			continue
+		}
+		out = append(out, typeArm{typ: gt[g.Name()], block: c.Target, iff: c.If.Block()})
+	}
+	if len(out) == 0 {
+		if td := tableDispatchOf(r, f, gt); td != nil {
+			out = append(out, td.arms...)
+		}
+	}
+	return out
+}
+
+// dispatchArmFuncs: the functions registered in the dispatch table of f (nil in the switch form).
+func dispatchArmFuncs(r *an.Run, f *ssa.Function, gt map[string]string) map[*ssa.Function]bool {
+	out := map[*ssa.Function]bool{}
+	if len(an.EqCases(f, isCallOnParam(rvType, "v"))) > 0 {
+		return out
+	}
+	if td := tableDispatchOf(r, f, gt); td != nil {
+		for _, a := range td.arms {
+			out[a.fn] = true
+		}
+	}
+	return out
 }
